@@ -101,10 +101,12 @@ func runC15(c *Ctx) {
 			c.SpecFail("timeout", hexS(s), impl, want, key, "decodeTimeout disagrees with the gRPC timeout grammar [0-9]{1,8}[HMSmun]")
 		}
 	}
-	c15API(c)
+	c15API(c, "plain")
+	ri := &recInterceptors{}
+	c15API(c, "stats+interceptors", larking.StatsOption(&recStats{}), larking.UnaryServerInterceptorOption(ri.Unary), larking.StreamServerInterceptorOption(ri.Stream))
 }
 
-func c15API(c *Ctx) {
+func c15API(c *Ctx, optName string, opts ...larking.MuxOption) {
 	var mu sync.Mutex
 	invoked := 0
 	var remaining time.Duration
@@ -183,7 +185,7 @@ func c15API(c *Ctx) {
 		{Name: "BlockRecv", In: "Req", Out: "Reply", ClientStream: true, Stream: blockRecv, Rule: postRule("/c15/recv", "*")},
 		{Name: "BlockBidi", In: "Req", Out: "Reply", ClientStream: true, ServerStream: true, Stream: blockRecv},
 		{Name: "BlockSend", In: "Req", Out: "Reply", ServerStream: true, Stream: blockSend},
-	}, nil)
+	}, nil, opts...)
 	if err != nil || fx.RegErr != nil || fx.RegPanic != nil {
 		c.SpecFail("fixture", "c15", fmt.Sprint(err, fx.RegErr, fx.RegPanic), "registered", "C15/fixture", "fixture registration failed")
 		return
@@ -200,18 +202,18 @@ func c15API(c *Ctx) {
 		mu.Lock()
 		invoked, hasDeadline, remaining = 0, false, 0
 		mu.Unlock()
-		r := httptest.NewRequest("POST", "/verif.v1.Svc/Dl", strings.NewReader(string(grpcFrame(0, nil))))
+		r := httptest.NewRequest("POST", "/verif.v1.Svc/Dl", strings.NewReader(string(grpcFrame(0, []byte{0x0a, 0x05, 'h', 'e', 'l', 'l', 'o'}))))
 		r.ProtoMajor, r.ProtoMinor = 2, 0
 		r.Header.Set("Content-Type", "application/grpc")
 		r.Header.Set("Grpc-Timeout", tv)
 		rec, pn := fx.Serve(r)
-		c.Eval("api-deadline", tv, true)
+		c.Eval("api-deadline", optName+" "+tv, true)
 		want, legal := specTimeout(tv)
 		mu.Lock()
 		inv, hd, rem := invoked, hasDeadline, remaining
 		mu.Unlock()
 		if pn != nil {
-			c.SpecFail("api-deadline", tv, fmt.Sprint("panic ", pn), "response", "C15/api/panic", "panic")
+			c.SpecFail("api-deadline", optName+" "+tv, fmt.Sprint("panic ", pn), "response", "C15/api/panic", "panic")
 			continue
 		}
 		if !legal {
@@ -220,7 +222,7 @@ func c15API(c *Ctx) {
 				if strings.HasPrefix(tv, "+") || strings.HasPrefix(tv, "-") {
 					key = "C15/api/signed-invokes-handler"
 				}
-				c.SpecFail("api-deadline", tv, fmt.Sprintf("handler invoked %d times, http %d grpc-status %q", inv, rec.Code, rec.Header().Get("Grpc-Status")), "refused without invoking the handler", key, "malformed grpc-timeout reaches the handler")
+				c.SpecFail("api-deadline", optName+" "+tv, fmt.Sprintf("handler invoked %d times, http %d grpc-status %q", inv, rec.Code, rec.Header().Get("Grpc-Status")), "refused without invoking the handler", key, "malformed grpc-timeout reaches the handler")
 			}
 			continue
 		}
@@ -228,7 +230,7 @@ func c15API(c *Ctx) {
 		T := time.Duration(ns)
 		if inv != 1 || !hd || rem > T || rem < T-1500*time.Millisecond {
 			if ns > 0 || inv != 0 { // a zero timeout may legitimately expire before the handler runs
-				c.SpecFail("api-deadline", tv, fmt.Sprintf("invoked=%d deadline=%v remaining=%v", inv, hd, rem), fmt.Sprintf("deadline %v after receipt", T), "C15/api/deadline-wrong", "handler context deadline differs from grpc-timeout")
+				c.SpecFail("api-deadline", optName+" "+tv, fmt.Sprintf("invoked=%d deadline=%v remaining=%v", inv, hd, rem), fmt.Sprintf("deadline %v after receipt", T), "C15/api/deadline-wrong", "handler context deadline differs from grpc-timeout")
 			}
 		}
 	}
